@@ -1,7 +1,7 @@
 """C03 - lossless Modular images decode exactly (claimed narrowly: format tables, predictor codes, and the one partition every channel
 goes through).  Sample-exact equality with an independent encoder is value-level and not decided."""
 from ..engine import Ctx
-from ..facts import callee, op_const_int, op_place, place_fields
+from ..facts import callee, op_const_int, op_place, place_fields, pos_line
 from . import specconst, enummap
 
 GM = "jxl_modular::image::ModularImageDestination::<S>::prepare_gmodular"
@@ -249,6 +249,122 @@ def rule_prevchan(ctx):
                     "single-leaf or refused-table trees" % f.path, fn=f, pos=t[-2])
 
 
+def rule_prevdepth(ctx):
+    """the number of previous channels kept for a tree covers every previous-channel property the tree tests"""
+    from ..mirutil import const_walk, Defs
+    from ..facts import op_local, op_const_int
+    rid = "R-PREVDEPTH"
+    ctx.rule(rid, "property 16 + e reads previous channel e / 4 (Properties::get_extra), so a tree that tests it needs e / 4 + 1 previous "
+                  "channels.  In FlatMaTree::new (and the closures it creates) every integer computed from `prop.checked_sub(16)` that "
+                  "feeds the maximum stored as max_prev_channel_depth is evaluated for e = 0..11 by constant propagation (division, "
+                  "shifts, +, div_ceil, casts) and must be >= e / 4 + 1 for each e.  One channel too few makes the property read 0 "
+                  "silently")
+    md = ctx.prog.crate("jxl_modular")
+    root = next((g for g in md.fn_list if g.path.endswith("FlatMaTree::new")), None)
+    if root is None:
+        ctx.anchor_missing(rid, "jxl_modular::ma::FlatMaTree::new")
+        return
+    fam = [g for g in md.fn_list if g.kind != "Promoted" and (g.path == root.path or g.path.startswith(root.path + "::{closure"))]
+    ctx.seen(root)
+
+    def pure_call(t, e, val_of):
+        c = callee(t)
+        if not c or not t[3] or len(t[3]) != 1:
+            return
+        nm = c["fn"].split("::")[-1].split("<")[0]
+        args = [val_of(a, e) for a in t[2]]
+        if any(a is None for a in args):
+            return
+        r = None
+        if nm == "div_ceil" and len(args) == 2 and args[1]:
+            r = -(-args[0] // args[1])
+        elif nm == "next_multiple_of" and len(args) == 2 and args[1]:
+            r = -(-args[0] // args[1]) * args[1]
+        elif nm in ("from", "into", "try_from", "unwrap", "unwrap_or") and args:
+            r = args[0]
+        elif nm == "saturating_add" and len(args) == 2:
+            r = args[0] + args[1]
+        if r is not None:
+            e[t[3][0]] = r
+
+    results = []       # (fn, description, {e: value})
+    for g in fam:
+        d = Defs(g)
+        # (a) payload of checked_sub(_, 16)
+        for b, t in g.calls():
+            c = callee(t)
+            if not (c and c["fn"].split("::")[-1] == "checked_sub" and len(t[2]) == 2 and op_const_int(t[2][1]) == 16 and t[3] and len(t[3]) == 1):
+                continue
+            opt = t[3][0]
+            vals = {}
+            for x in range(12):
+                got = []
+
+                def on_term(bb, tt, e, val_of):
+                    if tt[0] == "call":
+                        cc = callee(tt)
+                        nm = cc["fn"].split("::")[-1] if cc else ""
+                        if nm == "max" and len(tt[2]) == 2:
+                            known = [val_of(a, e) for a in tt[2]]
+                            known = [k for k in known if k is not None]
+                            if known:
+                                got.append(max(known))
+                            return False
+                        pure_call(tt, e, val_of)
+                    if tt[0] == "ret":
+                        return False
+
+                pv = lambda p, x=x: x if (p[0] == opt and any(isinstance(q, list) and q[0] == "as" and q[1] == "Some" for q in p[1:])) else None
+                try:
+                    const_walk(g, t[4], {}, on_term, place_value=pv, discr=lambda p: 1 if p == [opt] else None, limit=3000)
+                except RuntimeError:
+                    pass
+                if len(set(got)) == 1:
+                    vals[x] = got[0]
+            if vals:
+                results.append((g, "checked_sub(16) at line %d" % pos_line(t[-2]), vals))
+        # (b) a closure of one integer argument that contains a quartering operation and returns an integer
+        if g.kind == "Closure" and g.argc == 2 and g.local_ty(2) in ("u32", "usize") and g.local_ty(0) in ("u32", "usize"):
+            quarter = any((st[0] == "=" and st[2][0] == "bin" and ((st[2][1].startswith("Div") and op_const_int(st[2][3]) == 4)
+                                                                  or (st[2][1].startswith("Shr") and op_const_int(st[2][3]) == 2)))
+                          for blk in g.blocks if not blk[2] for st in blk[0]) \
+                or any(callee(t) and callee(t)["fn"].split("::")[-1] in ("div_ceil", "next_multiple_of") for _, t in g.calls())
+            if quarter:
+                vals = {}
+                for x in range(12):
+                    got = []
+
+                    def on_ret(bb, tt, e, val_of):
+                        if tt[0] == "call":
+                            pure_call(tt, e, val_of)
+                        if tt[0] == "ret" and e.get(0) is not None:
+                            got.append(e[0])
+
+                    try:
+                        const_walk(g, 0, {2: x}, on_ret, limit=3000)
+                    except RuntimeError:
+                        pass
+                    if len(set(got)) == 1:
+                        vals[x] = got[0]
+                if vals:
+                    results.append((g, "closure over the extra-property index", vals))
+    ctx.count(rid + ".depth-expressions", len(results))
+    if not results:
+        ctx.anchor_missing(rid, "an evaluable depth expression derived from checked_sub(16) in FlatMaTree::new")
+        return
+    for g, what, vals in results:
+        bad = {x: v for x, v in vals.items() if v < x // 4 + 1}
+        key = "depth:%s|%s" % (g.path, what.split(" at ")[0])
+        if bad:
+            x = min(bad)
+            ctx.bad(rid, key + "|too-small", "%s (%s): for property 16 + %d the tree is given %d previous channel(s), but the property reads "
+                    "previous channel %d (needs %d): it silently reads 0 and the wrong context is used (%d of %d values of the extra "
+                    "index are short)" % (g.path.split("::")[-2] + "::" + g.path.split("::")[-1], what, x, bad[x], x // 4, x // 4 + 1,
+                                            len(bad), len(vals)), fn=g)
+        else:
+            ctx.ok(rid, key, "%s: depth(e) >= e / 4 + 1 for e = %s" % (what, sorted(vals)), nontrivial=True, fn=g)
+
+
 def main(pid, tier, repo=None):
     ctx = Ctx(pid, tier, configs=("workspace",), repo=repo)
     specconst.run(ctx, pid, floor=2)
@@ -256,6 +372,7 @@ def main(pid, tier, repo=None):
     rule_chansplit(ctx)
     rule_rle_scope(ctx)
     rule_prevchan(ctx)
+    rule_prevdepth(ctx)
     ctx.not_decided("that every decoded sample equals the encoded integer: predictors (incl. the self-correcting one), context-tree lookup, "
                     "the specialised fast paths agreeing with the general path, RLE/LZ77 state across channels, inverse RCT / palette / "
                     "squeeze arithmetic, group layout")
